@@ -64,6 +64,8 @@ class Register:
                 )
         elif size is not None and not isinstance(size, Integral):
             raise JaqalError(f"Register {name} cannot have non-integer size {size}.")
+        elif size is not None and size <= 0:
+            raise JaqalError(f"Register {name} cannot have size {size}.")
         if alias_slice is not None:
             for bound in (alias_slice.start, alias_slice.stop, alias_slice.step):
                 if bound is not None and not isinstance(
